@@ -152,7 +152,9 @@ def _host_software(rng, host: dict, role: str, env: dict, shadowing: bool):
         app("database-client", {"db_server_ip": env["db_ip"]})
     elif role == "db":
         o: Dict[str, Any] = {}
-        if env.get("backup_ip") and rng.chance(2, 3):
+        if env.get("backup_ip"):
+            # always: a database service without backup_server_ip makes `node-service-fix` raise inside step (restore_backup
+            # sends to address None) - a C01 matter, kept out of the families generated here
             o["backup_server_ip"] = env["backup_ip"]
         if rng.chance(1, 3):
             o["fixing_duration"] = rng.range(1, 6)
@@ -238,7 +240,7 @@ def _build_network(rng, family: str, size: int, shadowing: bool, off_nodes: bool
         for lan in lans:
             lan.gateway = f"{lan.prefix}.1"
     roles = ["dns", "web", "db", "backup"] + (["ntp"] if rng.chance(1, 2) else [])
-    roles = roles[: max(2, min(len(roles), 2 + size + rng.below(2)))]
+    roles = roles[: max(4, min(len(roles), 2 + size + rng.below(2)))]  # db always comes with its backup server
     web_lan = lans[1] if family == "dmz" else server_lan
     # pre-assign server addresses so that options can reference them
     plan = []
@@ -562,24 +564,31 @@ def gen_scenario(rng, size: int = 1, family: Optional[str] = None, shadowing: bo
                     a["reward_function"]["reward_components"].append({"type": "shared-reward", "weight": 0.5, "options": {"agent_name": "defender"}})
                     break
     cfg["agents"] = ag
+    # an observation space with include_nmne needs NMNE capture switched on (otherwise the observation lacks the NMNE key the
+    # space declares - C02's finding F-5 - and a flattened observation raises at reset)
+    wants_nmne = any(c.get("options", {}).get("include_nmne") for a in ag for c in
+                     (a.get("observation_space", {}).get("options", {}).get("components", [])))
+    if wants_nmne or rng.chance(1, 4):
+        cfg["simulation"]["network"]["nmne_config"] = {"capture_nmne": True, "nmne_capture_keywords": ["DELETE"]}
     return copy.deepcopy(cfg)
 
 
-def permute_mappings(cfg: Any, rng) -> Any:
-    """Deep copy in which the entries of every mapping appear in a shuffled order; lists keep their order."""
+def permute_mappings(cfg: Any, rng, keep=()) -> Any:
+    """Deep copy in which the entries of every mapping appear in a shuffled order; lists keep their order.
+    Mappings stored under a key named in `keep` are copied in their original order."""
     if isinstance(cfg, dict):
         keys = rng.shuffle(list(cfg.keys()))
-        return {k: permute_mappings(cfg[k], rng) for k in keys}
+        return {k: (copy.deepcopy(cfg[k]) if k in keep else permute_mappings(cfg[k], rng, keep)) for k in keys}
     if isinstance(cfg, list):
-        return [permute_mappings(v, rng) for v in cfg]
+        return [permute_mappings(v, rng, keep) for v in cfg]
     return copy.deepcopy(cfg)
 
 
-def reverse_mappings(cfg: Any) -> Any:
+def reverse_mappings(cfg: Any, keep=()) -> Any:
     if isinstance(cfg, dict):
-        return {k: reverse_mappings(cfg[k]) for k in reversed(list(cfg.keys()))}
+        return {k: (copy.deepcopy(cfg[k]) if k in keep else reverse_mappings(cfg[k], keep)) for k in reversed(list(cfg.keys()))}
     if isinstance(cfg, list):
-        return [reverse_mappings(v) for v in cfg]
+        return [reverse_mappings(v, keep) for v in cfg]
     return copy.deepcopy(cfg)
 
 
